@@ -50,6 +50,11 @@ CHECKS["C06"] = dict(engine="MarkdownDoc", ref="3 (C06), Appendix A.3",
     note="Trusted: TLC; the segment renderer. Ambiguous Markdown is excluded by construction. Err is always acceptable (statement), unexpected Errs are reported as DRIFT. Titles compared only where statement and long-standing behaviour agree.",
     technique="TLA+ reference reading + tokenizer machine, TLC equivalence check on all documents in the bound, documents replayed into MarkdownParser::parse, TLC comparison of every result")
 
+CHECKS["C07"] = dict(engine="CramDoc", ref="3 (C07)",
+    text="specs/CramDoc.tla gives a positional reference reading CramRef (one test per two-space-indented `$` line, `>` continuations directly after it, following indented lines with exactly two spaces removed as expectations, `[n]` as exit code, nearest preceding unindented non-comment line as title, column-0 `#` lines skipped) and the line machine of src/parsers/cram.rs with the LineParser state inlined; TLC checks machine = reference for ALL line sequences of length <= 4 (thorough 5) over 12 line kinds (22621 documents) and emits them. The real CramParser parses each document (LF, CRLF, no final newline); TLC compares every result with the reference incl. the Cram defaults (combined output, CRLF kept) of every test.",
+    note="Trusted: TLC. Documents containing indented lines that belong to no command are judged only for 'never crashes' (the statement is silent about them). Titles are compared only for the first command after an unindented line.",
+    technique="TLA+ positional reference + line machine, TLC equivalence over all short line sequences, replay into CramParser::parse, TLC comparison of every result")
+
 NOT_YET = {
 }
 
@@ -95,6 +100,8 @@ def main():
              "kind_free_text": "TLA+ spec of `scrut test` end to end: TestCommandProps (scenario structure + property predicates), TestCommand (the machine), MC_TestCommand (scenario families, TLC MC/GEN), TestCommandTrace (TLC evaluation of observed runs); run/scenario.py materialises and runs scenarios with the real binary"},
             {"name": "MarkdownDoc", "path": "specs/MarkdownDoc.tla", "serves_properties": ["C06"],
              "kind_free_text": "TLA+ spec of Markdown test documents: reference reading MdRef, tokenizer machine MdTok, MC_MarkdownDoc (equivalence + GEN), MarkdownTrace (comparison of real parses)"},
+            {"name": "CramDoc", "path": "specs/CramDoc.tla", "serves_properties": ["C07"],
+             "kind_free_text": "TLA+ spec of Cram documents: positional reference CramRef, line machine CramTok, MC_CramDoc (equivalence + GEN), CramTrace (comparison of real parses)"},
             {"name": "Rules", "path": "specs/Rules.tla", "serves_properties": ["C04"],
              "kind_free_text": "TLA+ reference semantics of the expectation kinds; MC_Rules (enumeration + sanity), RulesTrace (re-evaluation of implementation answers)"},
         ],
